@@ -69,3 +69,13 @@ Theorem C29_listing_exact :
   NoDup (scan_directory decompress crc files).
 Proof. exact listing_exact. Qed.
 Print Assumptions C29_listing_exact.
+
+(* the same explorer used again: after any earlier scans of any earlier directory contents the
+   listing is exactly what is on disk at the last scan (nothing stale, nothing missing) *)
+Theorem C29_rescan_exact :
+  forall (decompress : list N -> option (list N)) (crc : list N -> N) history files t,
+  (In t (explorer_run decompress crc (history ++ [files])) <->
+     exists f, In f files /\ scan_file decompress crc f = Some t) /\
+  NoDup (explorer_run decompress crc (history ++ [files])).
+Proof. exact rescan_exact. Qed.
+Print Assumptions C29_rescan_exact.
